@@ -65,6 +65,8 @@ def run(ctx):
                 # import: other representations of the same secret
                 b32 = d.to_bytes(32, 'big')
                 reps = {'int': d, 'hex': b32.hex(), 'bytes': b32}
+                if len(str(d)) > 70:
+                    reps['decimal-string'] = str(d)          # (shorter decimal strings are not a recognised format: they could be hexadecimal)
                 if comp:
                     reps['hex+01'] = b32.hex() + '01'
                     reps['bytes+01'] = b32 + b'\x01'
@@ -184,6 +186,26 @@ def run(ctx):
                         enc_cases.append(('xkey_enc %s %d %s %d %d %s %d %s %s' % (net, priv, wt, ms, k.depth, k.parent_fingerprint.hex(),
                                                                                    k.child_index, k.chain.hex(), kd.hex()), s, True))
                         imports.append((s, net, wt, ms, priv, k, kd))
+    # an HD key object made from an uncompressed private key: BIP32 serialises the compressed public key whatever the object's own flag
+    for _ in range(6 if T else 2):
+        net = rng.choice(nets)
+        d_ = rng.choice(secrets)
+        try:
+            hu = HDKey(Key(d_, network=net, compressed=False).wif(), network=net)
+        except Exception:
+            ctx.count('no-hdkey-from-uncompressed-wif')
+            continue
+        for priv in (True, False):
+            try:
+                s_ = hu.wif(is_private=priv)
+            except Exception:
+                ctx.count('no-prefix-for-history-call')
+                continue
+            kd = (b'\0' + hu.private_byte) if priv else hu.public_compressed_byte
+            ctx.count('xkey-export-uncompressed-object')
+            enc_cases.append(('xkey_enc %s %d %s %d %d %s %d %s %s' % (net, priv, hu.witness_type, bool(hu.multisig), hu.depth, hu.parent_fingerprint.hex(),
+                                                                       hu.child_index, hu.chain.hex(), kd.hex()), s_, True))
+            imports.append((s_, net, hu.witness_type, bool(hu.multisig), priv, hu, kd))
     # the same exports in random order on ONE object, mixed with the default-argument forms (nothing cached may leak into another form)
     for net in (nets if T else rng.sample(nets, 3)):
         k = HDKey.from_seed(bytes(rng.randrange(256) for _ in range(32)), network=net, witness_type=rng.choice(['legacy', 'p2sh-segwit', 'segwit'])).subkey_for_path("m/1'/2")
